@@ -189,6 +189,13 @@ def run_case(ctx, case):
         origin = target
         if case["mode"] == "schema":
             schema = SCHEMA_FAMILIES[case["family"]][1]
+            if case["family"] == "ints" and len(case["jobs"]) % 2 == 0:
+                import re
+
+                def schema(path, _re=re.compile(r"(?:^|/)a/([+-]?[0-9]+)$")):
+                    # a user-written schema function: path -> state point (None = not a job directory)
+                    m = _re.search(path.replace(os.sep, "/"))
+                    return {"a": int(m.group(1))} if m else None
             if case["strip_sp_files"] and case["target"] == "dir":
                 for dp, _dn, fns in os.walk(target):
                     for fn in fns:
@@ -273,7 +280,7 @@ def run_case(ctx, case):
                 key = "schema-string-parses-wrong-type"
             ctx.violation(key, "re-imported project differs from the source",
                           {"problems": problems[:4], "sps": sps, "target": case["target"], "path": case["path"],
-                           "schema": schema, "stray": sorted(os.listdir(ws))[:8]})
+                           "schema": schema if isinstance(schema, (str, type(None))) else "<callable>", "stray": sorted(os.listdir(ws))[:8]})
             return
         if len(sps) >= 2:
             ctx.distinct("nontrivial", case)
